@@ -20,6 +20,8 @@ CHECKS = {
     "C04": {"units": [rapid("routinex", "TestC04", 10000, 60000)]},
     "C05": {"units": [rapid("routinex", "TestC05", 8000, 60000)]},
     "C14": {"units": [rapid("routinex", "TestC14", 10000, 60000)]},
+    "C06": {"units": [rapid("keyedx", "TestC06Keyed", 6000, 40000), rapid("keyedx", "TestC06RefCount", 6000, 40000)]},
+    "C07": {"units": [rapid("keyedx", "TestC07", 8000, 50000)]},
     "C11": {"units": [rapid("promisex", "TestC11", 10000, 80000)]},
     "C15": {"units": [rapid("ccontx", "TestC15", 10000, 80000)]},
     "C16": {"units": [rapid("promisex", "TestC16", 10000, 80000)]},
